@@ -49,8 +49,7 @@ package phantoms
 //@   assigns nothing
 // the subnet-group parser (builds fresh objects): every subnet of the group is parsed by parseSubnet and stored as parsed
 //@ func parseSubnets(phantomSubnet *pb.PhantomSubnets) ([]*phantomNet, error)
-//@   requires phantomSubnet != nil
-//@   ensures @C14: result1 == nil ==> len(result0) == len(phantomSubnet.Subnets) && (forall i int :: 0 <= i && i < len(result0) ==> result0[i] != nil && result0[i].IPNet == cidrOf(phantomSubnet.Subnets[i]))
+//@   ensures @C14: result1 == nil ==> phantomSubnet != nil && len(result0) == len(phantomSubnet.Subnets) && (forall i int :: 0 <= i && i < len(result0) ==> result0[i] != nil && result0[i].IPNet == cidrOf(phantomSubnet.Subnets[i]))
 //@   assigns nothing
 //@ loop 1:
 //@   invariant 0 <= iter && iter <= len(phantomSubnet.Subnets) && phantomSubnet != nil && phantomSubnet.Subnets == old(phantomSubnet.Subnets)
